@@ -103,7 +103,7 @@ impl<'a> AStepper<'a> {
     fn emit(&mut self, act: &str, ans: &str) {
         let cbs = self.cb.drain_str();
         let snap = self.snap();
-        self.out.line(&format!("{} | {} cbs={} {}", act, ans, cbs, snap));
+        self.out.line(&format!("{} | {} cbs={} vseen={} {}", act, ans, cbs, crate::cache::validator_log_drain(), snap));
     }
 
     fn pending(&self) -> (usize, usize) {
@@ -164,10 +164,21 @@ impl<'a> AStepper<'a> {
         self.next_val += 1;
         let coster = self.coster.value(v);
         let key = mk_key(idx, conf);
+        let variant = v % 4;
+        let c = &self.c;
         let r = if only {
-            self.c.try_insert_if_present(key, v, cost).await
+            if variant % 2 == 0 { c.try_insert_if_present(key, v, cost).await } else { Ok(c.insert_if_present(key, v, cost).await) }
+        } else if ttl_ns == 0 {
+            match variant {
+                0 => c.try_insert(key, v, cost).await,
+                1 => Ok(c.insert(key, v, cost).await),
+                2 => c.try_insert_with_ttl(key, v, cost, Duration::ZERO).await,
+                _ => Ok(c.insert_with_ttl(key, v, cost, Duration::ZERO).await),
+            }
+        } else if variant % 2 == 0 {
+            c.try_insert_with_ttl(key, v, cost, Duration::from_nanos(ttl_ns)).await
         } else {
-            self.c.try_insert_with_ttl(key, v, cost, Duration::from_nanos(ttl_ns)).await
+            Ok(c.insert_with_ttl(key, v, cost, Duration::from_nanos(ttl_ns)).await)
         };
         let ans = match r {
             Ok(b) => format!("ret={}", b as u8),
@@ -177,12 +188,51 @@ impl<'a> AStepper<'a> {
     }
 
     async fn get(&mut self, idx: u64, conf: u64) {
-        let r = self.c.get(&mk_key(idx, conf)).await.map(|v| *v.value());
+        self.next_id += 1;
+        let key = mk_key(idx, conf);
+        let r = match self.next_id % 3 {
+            0 => self.c.get(&key).await.map(|v| *v.value()),
+            1 => {
+                let c2 = self.c.clone();
+                let r = c2.get(&key).await.map(|v| v.read());
+                drop(c2);
+                r
+            }
+            _ => self.c.get(&key).await.map(|v| *v.as_ref()),
+        };
         let ans = match r {
             Some(v) => format!("ret={}", v),
             None => "ret=none".to_string(),
         };
         self.emit(&format!("c.get {} {}", idx, conf), &ans);
+    }
+
+    async fn get_held(&mut self, idx: u64, conf: u64, adv: u64) {
+        // with a real-time ticker the sweep that follows the clock move cannot be told apart from the other
+        // background work that runs at the next yield: such lives use the plain lookup
+        if self.cfg.ticker {
+            return self.get(idx, conf).await;
+        }
+        let key = mk_key(idx, conf);
+        let now = self.now;
+        let r = self.c.get(&key).await.map(|v| {
+            let t0 = v.ttl();
+            verif::clock::set_manual(now + adv);
+            let t1 = v.ttl();
+            (*v.value(), t0, t1)
+        });
+        self.now += adv;
+        verif::clock::set_manual(self.now);
+        let show = |d: Duration| if d == Duration::MAX { "max".to_string() } else { d.as_nanos().to_string() };
+        let ans = match r {
+            Some((v, t0, t1)) => format!("ret={} ttl0={} ttl1={}", v, show(t0), show(t1)),
+            None => "ret=none ttl0=- ttl1=-".to_string(),
+        };
+        self.emit(&format!("c.getheld {} {} {}", idx, conf, adv), &ans);
+        // the clock moved: in a life with a ticker the sweep of whatever became due follows
+        if adv > 0 {
+            self.tick().await;
+        }
     }
 
     async fn get_mut(&mut self, idx: u64, conf: u64) {
@@ -280,7 +330,7 @@ pub struct AGenOpts {
 }
 
 async fn life(out: &mut Out, rng: &mut Rng, cfg: &ACfg, g: &AGenOpts) {
-    let cb = RecCallback(Default::default(), cfg.default_reject);
+    let cb = RecCallback(Default::default(), cfg.default_reject, Default::default());
     let cleanup = if cfg.ticker { Duration::from_millis(1) } else { Duration::from_secs(3600) };
     let _ = verif::take_processor_config();
     let built = if cfg.late_setters {
@@ -375,9 +425,13 @@ async fn life(out: &mut Out, rng: &mut Rng, cfg: &ACfg, g: &AGenOpts) {
     let base = *rng.pick(&[0u64, 0, 20, 23, 45, 70, 250, 254, 506, 1020, 65_530, 4_294_967_280]);
     let item = if cfg.ignore_internal { 0 } else { verif::async_cache_item_size(&s.c) as i64 };
     let unit = (cfg.max_cost / 6).max(1);
+    // conflict hashes of a life without forced collisions: all zero (what `TransparentKeyBuilder` yields) or
+    // non-zero and different from key to key (what `DefaultKeyBuilder` yields): one conflict per index
+    let conf_mode = rng.below(2);
+    let cf = move |i: u64| if conf_mode == 0 { 0 } else { 1 + i % 5 };
     for _ in 0..g.ops {
         let idx = base + rng.below(universe);
-        let conf = if g.collisions { rng.range(1, 2) } else { 0 };
+        let conf = if g.collisions { rng.range(1, 2) } else { cf(idx) };
         let r = rng.below(100);
         if r < 30 {
             s.drain().await;
@@ -406,7 +460,13 @@ async fn life(out: &mut Out, rng: &mut Rng, cfg: &ACfg, g: &AGenOpts) {
             s.tick().await;
             for _ in 0..rng.range(1, 4) {
                 match rng.below(7) {
-                    0 => s.get(idx, conf).await,
+                    0 => {
+                        if rng.chance(1, 2) {
+                            s.get(idx, conf).await
+                        } else {
+                            s.get_held(idx, conf, *rng.pick(&[1u64, 2, SEC / 3, SEC])).await
+                        }
+                    }
                     1 | 2 => s.get_mut(idx, conf).await,
                     3 => s.get_ttl(idx, conf),
                     4 => s.insert(idx, conf, 1, 0, true).await,
@@ -457,7 +517,8 @@ async fn life(out: &mut Out, rng: &mut Rng, cfg: &ACfg, g: &AGenOpts) {
                 let cost = rng.range(0, unit as u64) as i64;
                 s.insert(idx, conf, cost, 0, true).await;
             }
-            10..=14 => s.get(idx, conf).await,
+            10..=13 => s.get(idx, conf).await,
+            14 => s.get_held(idx, conf, *rng.pick(&[0u64, 1, 1000, SEC / 2, 2 * SEC])).await,
             15 => s.get_mut(idx, conf).await,
             16 => s.get_ttl(idx, conf),
             17..=18 => s.remove(idx, conf).await,
